@@ -153,12 +153,71 @@ func c16Workload(e *Env) {
 		acc.merge(lf)
 	})
 	r.Set("observations", acc.m)
+	c16Pool(e)
+	if !(len(e.Args) > 0 && e.Args[0] == "race-child") && e.Only == "" {
+		c16HugeSource(e)
+	}
+}
+
+// c16HugeSource decodes ordinary small frames from a source buffer that still holds ~96 MiB of further frames
+// (a session or replay image): fast paths keyed on "how much is buffered" only show up there.
+func c16HugeSource(e *Env) {
+	r := e.R
+	n := 0
+	for _, t := range e.S.Order {
+		isFrame := false
+		for _, f := range t.Fields {
+			if f.Kind == "union" && f.Key == "MsgType" {
+				isFrame = true
+			}
+		}
+		if !isFrame {
+			continue
+		}
+		g := e.Gen(&gen.Opts{}, t.QName, "huge-source")
+		var one []byte
+		for k := 0; k < 40; k++ {
+			w, err, p := EncodeFresh(g.Value(t))
+			if err == nil && p == nil {
+				one = append(one, w...)
+			}
+		}
+		if len(one) == 0 {
+			continue
+		}
+		img := make([]byte, 0, 96<<20+len(one))
+		for len(img) < 96<<20 {
+			img = append(img, one...)
+		}
+		buf := bytes.NewBuffer(img)
+		var msgs, snaps []any
+		for k := 0; k < 3; k++ {
+			m := e.C.New[t.QName]()
+			if err, p := LibDecode(m, buf); err != nil || p != nil {
+				break
+			}
+			msgs = append(msgs, m)
+			snaps = append(snaps, val.Clone(m))
+		}
+		for i := range img {
+			img[i] = ^img[i]
+		}
+		for k := range msgs {
+			r.Evals(1)
+			n++
+			if d := val.Equal(snaps[k], msgs[k]); d != "" {
+				r.Violate("C16/decoded-message-aliases-source-bytes/"+t.QName+"/96MiB-source", "C16/decoded-message-aliases-source-bytes/"+t.QName, map[string]any{"type": t.QName, "step": "decode 3 frames from a buffer holding 96 MiB of frames, then complement the whole image", "first_difference": d})
+				break
+			}
+		}
+	}
+	r.Set("frames_decoded_from_a_96MiB_source", n)
 }
 
 func c16(e *Env) {
 	r := e.R
-	r.Rule("every type × canonical values with non-empty lists (1,2,3,17 elements) and populated nested parts, two values per type with 600-element and one with 5000-element lists (bulk / zero-copy fast paths start at a size threshold): decode side — decode from a harness-owned byte array, then (i) complement every source byte, (ii) Reset() the buffer and write unrelated bytes of the same length, (iii) decode a different message from the same buffer into another receiver; encode side — encode behind a prefix, then mutate the message in place (every number, text, list element, nested part; swap body/extension objects). The same workload is repeated in a -race build (checkptr instrumentation on). distinct_nontrivial = distinct non-zero values whose in-place mutation provably changed their own encoding")
-	r.Explain("Oracle: the decoded message ≡ its deep snapshot after each of (i)-(iii); the bytes already written == their snapshot after the message mutation; zero race-detector / checkptr reports or aborts in the instrumented run.")
+	r.Rule("every type × canonical values with non-empty lists (1,2,3,17 elements) and populated nested parts, two values per type with 600-element and one with 5000-element lists (bulk / zero-copy fast paths start at a size threshold): decode side — decode from a harness-owned byte array, then (i) complement every source byte, (ii) Reset() the buffer and write unrelated bytes of the same length, (iii) decode a different message from the same buffer into another receiver; encode side — encode behind a prefix, then mutate the message in place (every number, text, list element, nested part; swap body/extension objects). Then, per type, a pool of 4 long-lived objects (one of them the zero value) and 2 buffers is used over and over for 60 (thorough 1500) random operations — encode object i into buffer j, decode a wire-level or valid image into object i, reset a buffer, replace an object — as an application that pools messages and buffers would. The same workload is repeated in a -race build (checkptr instrumentation on). distinct_nontrivial = distinct non-zero values whose in-place mutation provably changed their own encoding")
+	r.Explain("Oracle: the decoded message ≡ its deep snapshot after each of (i)-(iii); the bytes already written == their snapshot after the message mutation; in the pool walk an operation on one object/buffer leaves every OTHER pooled object ≡ its snapshot and every other buffer unchanged, and what the operation produces equals what the stateless reference interpreter produces for the same input; zero race-detector / checkptr reports or aborts in the instrumented run.")
 	r.Assume("checkptr only flags invalid unsafe conversions; a zero-copy alias that is 'valid' for checkptr is still caught by oracle (i)")
 	if len(e.Args) > 0 && e.Args[0] == "race-child" {
 		e.Workers = 1 // single goroutine: what the instrumented run adds is checkptr, not race hunting
